@@ -84,8 +84,14 @@ class Ctx:
     def elapsed(self):
         return time.time() - self.t0
 
+    def new_phase(self):
+        """the random phase of a workload gets the whole budget for itself, however long the
+        enumerated phase before it took"""
+        self.phase_t0 = time.time()
+
     def time_left(self, frac=1.0):
-        return self.elapsed() < self.budget_s * frac
+        t0 = getattr(self, 'phase_t0', self.t0)
+        return (time.time() - t0) < self.budget_s * frac
 
     # ------------------------------------------------------------ counting
     def case(self, canon, nontrivial=True):
